@@ -6,6 +6,8 @@
    attribute every position alike (file and line for columns = false). *)
 From RS Require Import Base.Prelude Base.Text Stream.Types Stream.Tree Api.ApiHist Checkers.ChkHist
   Proofs.CacheStore Proofs.CacheReplay.
+From RS Require Import Checkers.ChkTree Checkers.ChkCodec Codec.CodecSpec.
+From RS Require Proofs.RStreamTree Proofs.FinalCache.
 
 (* the cache is keyed by the whole option record and is write-once *)
 Theorem C10_cache_keys : forall st id o v c f f',
@@ -55,3 +57,27 @@ Theorem C10_non_ascii_refuted :
     (fresh_answers a [OStream true false; OStream true false]) 0 = 2.
 Proof. exact cached_original_utf8_counterexample. Qed.
 Print Assumptions C10_non_ascii_refuted.
+
+(* composites: a CachedSource over any tree over Raw* / Original / SourceMapSource / Concat /
+   Replace whose map() is get_map (ConcatSource; ReplaceSource with replacements) is transparent
+   for every history of observations with columns = true (source, buffer, size, hash, map,
+   streams in both final-source modes); hypothesis: the encoder's domain (fields below 2^30) *)
+Theorem C10_transparent_composites : forall id cs ops,
+  RStreamTree.rshape (SConcat cs) = true -> treeA (SConcat cs) = true -> RStreamTree.rsmall (SConcat cs) = true ->
+  forallb mapping_small (chunk_mappings (CacheReplay.evs_of (SConcat cs) true true)) = true ->
+  forallb mapping_small (chunk_mappings (CacheReplay.evs_of (SConcat cs) true false)) = true ->
+  Forall (FinalCache.hop_cols FinalCache.cols_true) ops ->
+  answers_equiv (source (SConcat cs)) ops (fst (run_hops [] (SCached id (SConcat cs)) ops))
+                (fresh_answers (SConcat cs) ops) 0 = 0.
+Proof. exact FinalCache.cached_concat_transparent. Qed.
+Print Assumptions C10_transparent_composites.
+
+Theorem C10_transparent_composites_any_root : forall a id ops,
+  RStreamTree.rshape a = true -> treeA a = true -> RStreamTree.rsmall a = true ->
+  (forall st, map_of st a true = Tree.get_map st a true) ->
+  forallb mapping_small (chunk_mappings (CacheReplay.evs_of a true true)) = true ->
+  forallb mapping_small (chunk_mappings (CacheReplay.evs_of a true false)) = true ->
+  Forall (FinalCache.hop_cols FinalCache.cols_true) ops ->
+  answers_equiv (source a) ops (fst (run_hops [] (SCached id a) ops)) (fresh_answers a ops) 0 = 0.
+Proof. intros a id ops H1 H2 H3 H4 H5 H6. exact (FinalCache.cached_composite_transparent a H1 H2 H3 H4 H5 H6 id ops). Qed.
+Print Assumptions C10_transparent_composites_any_root.
